@@ -12,7 +12,7 @@ WORK = run.WORK
 LIFE = {
     "C01": dict(models=["base_foreign", "restart"], tmodels=["t_restart3", "overlap"], fams=["other", "base", "amtless", "twohash"],
                 crashes=(0, 1), wf=0, rf=0, extra=["class"]),
-    "C02": dict(extra=["wait_timeout", "slow_decision"], focus=["Overlap", "Live"], models=["restart", "faults"], tmodels=["t_restart3", "t_faults2", "overlap"], fams=["base", "overlap", "amtless", "replay"],
+    "C02": dict(extra=["wait_timeout", "slow_decision", "write_fault"], focus=["Overlap", "Live"], models=["restart", "faults"], tmodels=["t_restart3", "t_faults2", "overlap"], fams=["base", "overlap", "amtless", "replay"],
                 crashes=(0, 1, 1), wf=1, rf=0, trf=1),
     "C03": dict(models=["base_conf", "base_amtless", "base_zero", "restart"], tmodels=["t_restart3", "base_tot"], fams=["base", "amtless", "overlap", "other"],
                 crashes=(0, 1), wf=0, rf=0, extra=["class"]),
@@ -23,9 +23,10 @@ LIFE = {
                 crashes=(0,), wf=1, rf=1, extra=["garbage", "class-raw", "e2e_burst", "slow_decision"]),
     "C07": dict(models=["base_conf", "base_exp", "base_tot", "base_amtless"], tmodels=["overlap"], fams=["base", "amtless"],
                 crashes=(0,), wf=0, rf=0, extra=["slow_decision"]),
-    "C08": dict(extra=["wait_timeout"], focus=["Overlap", "Live"], models=["overlap", "faults", "restart"], tmodels=["t_overlap2", "t_faults2"], fams=["overlap", "base"],
+    "C08": dict(extra=["wait_timeout", "write_fault"], focus=["Overlap", "Live"], models=["overlap", "faults", "restart"], tmodels=["t_overlap2", "t_faults2"], fams=["overlap", "base"],
                 crashes=(0, 1), wf=1, rf=0),
-    "C09": dict(models=["wedge", "faults"], tmodels=["t_faults2", "restart"], fams=["base", "overlap"], crashes=(0, 1, 1), wf=1, rf=0, probes=3),
+    "C09": dict(models=["wedge", "faults"], tmodels=["t_faults2", "restart"], fams=["base", "overlap"], crashes=(0, 1, 1), wf=1, rf=0, probes=3,
+                extra=["write_fault"]),
     "C11": dict(clockback=True, extra=["restart_wait", "poll_window", "e2e_mpp"], models=["base_conf", "base_thirds", "restart"], tmodels=["t_restart3", "base_exp"], fams=["base", "amtless"], crashes=(0, 1), wf=0, rf=0),
     "C12": dict(models=["base_tot", "base_exp", "base_zero"], tmodels=["base_conf"], fams=["base", "amtless"], crashes=(0,), wf=0, rf=0),
     "C13": dict(models=["base_foreign"], tmodels=["twohash"], fams=["other", "twohash"], crashes=(0,), wf=0, rf=0, extra=["class"]),
@@ -241,6 +242,10 @@ def build_jobs(pid, tier, seed, workdir):
         dj = scen.poll_window_jobs(start_run=runno)
         jobs += dj; runno += len(dj)
         sched_stats["directed height-poll-in-flight schedules (real BlockWatcher)"] = len(dj)
+    if "write_fault" in ex:
+        dj = scen.write_fault_jobs(start_run=runno, probes=spec.get("probes", 0))
+        jobs += dj; runno += len(dj)
+        sched_stats["directed write-fault schedules"] = len(dj)
     if "slow_decision" in ex:
         dj = scen.slow_decision_jobs(start_run=runno)
         jobs += dj; runno += len(dj)
